@@ -16,6 +16,7 @@ import (
 	"github.com/nspcc-dev/neo-go/pkg/core/transaction"
 	"github.com/nspcc-dev/neo-go/pkg/crypto/keys"
 	"github.com/nspcc-dev/neo-go/pkg/network/payload"
+	"github.com/nspcc-dev/neo-go/pkg/smartcontract/nef"
 	"github.com/nspcc-dev/neo-go/pkg/vm/stackitem"
 
 	"verif/harness/internal/hx"
@@ -215,6 +216,26 @@ func showNode(s *sb, n mpt.Node) {
 	default:
 		s.tok(fmt.Sprintf("?node:%T", n))
 	}
+}
+
+func showNef(s *sb, n *nef.File) {
+	s.hex([]byte(n.Compiler))
+	s.hex([]byte(n.Source))
+	s.num(uint64(len(n.Tokens)))
+	for i := range n.Tokens {
+		t := &n.Tokens[i]
+		s.hex(t.Hash[:])
+		s.hex([]byte(t.Method))
+		s.num(uint64(t.ParamCount))
+		if t.HasReturn {
+			s.tok("1")
+		} else {
+			s.tok("0")
+		}
+		s.num(uint64(t.CallFlag))
+	}
+	s.hex(n.Script)
+	s.num(uint64(n.Checksum))
 }
 
 // showItem dumps a stack item (maps in insertion order, as stackitem.Map keeps them).
